@@ -1,7 +1,10 @@
 package props
 
 import (
+	"bytes"
+	"encoding/json"
 	"fmt"
+	"os/exec"
 	"sync"
 	"time"
 
@@ -97,4 +100,56 @@ func partConcurrent(c *check.Ctx, a *acc, prop string) {
 	a.add(done, nontrivial, "E2 concurrent blocks: after a sequential prefix judged by the model, 2-3 members of one session fire 1-4 requests each at once (classes: mutations on different keys, same-key writers, with a newcomer joining, with a member leaving, both), free-running or under jitter at injected scheduling points; after a frame barrier and a barrier on every connection: exactly-once / never-echoed / per-sender order by origin tag, and every member's folded view (and the newcomer's) against the state handed to a probe; non-trivial when at least 2 senders' relays were attributed", samples...)
 }
 
-func partStoreStress(c *check.Ctx, a *acc) {}
+// partStoreStress: E6 - concurrent Add/Update/Delete/List/DeleteByEntityID on
+// the real component store in a -race child, porcupine per key.
+func partStoreStress(c *check.Ctx, a *acc) {
+	bin, err := c.WS.BuildMain("./sut/e6store", "race")
+	if err != nil {
+		c.Inconc("build failed: " + err.Error())
+		return
+	}
+	cmd := exec.Command(bin, "-seed", fmt.Sprint(c.Seed), "-n", fmt.Sprint(c.Pick(300, 3000)))
+	var out, errb bytes.Buffer
+	cmd.Stdout, cmd.Stderr = &out, &errb
+	done := make(chan error, 1)
+	go func() { done <- cmd.Run() }()
+	select {
+	case err = <-done:
+	case <-time.After(20 * time.Minute):
+		cmd.Process.Kill()
+		c.Inconc("C12: component store batch exceeded its watchdog")
+		return
+	}
+	var r struct {
+		Histories   int      `json:"histories"`
+		Operations  int      `json:"operations"`
+		KeyOps      int      `json:"per_key_operations_checked"`
+		Overlapping int      `json:"histories_with_overlapping_operations"`
+		Unknown     int      `json:"checker_timeouts"`
+		TypeChecks  int      `json:"type_registration_checks"`
+		Violations  []string `json:"violations"`
+		Sample      []string `json:"sample_history"`
+	}
+	if err != nil || json.Unmarshal(out.Bytes(), &r) != nil {
+		msg := errb.String()
+		if len(msg) > 3000 {
+			msg = msg[:3000]
+		}
+		c.Report(&check.Finding{Props: []string{"C12", "C09"}, Clause: "store/crash-or-race", Trigger: "component store", Engine: "E6 component store",
+			Detail: fmt.Sprintf("the component store child (-race build) failed: %v\n%s", err, msg)})
+		return
+	}
+	for _, v := range r.Violations {
+		c.Report(&check.Finding{Props: []string{"C12"}, Clause: "store/not-a-map", Trigger: "component store", Engine: "E6 component store", Detail: v})
+	}
+	for i := 0; i < r.Unknown; i++ {
+		c.Inconc("porcupine timed out on a component store history")
+	}
+	c.Coverage["store_histories"] = r.Histories
+	c.Coverage["store_operations"] = r.Operations
+	c.Coverage["store_per_key_operations_checked"] = r.KeyOps
+	c.Coverage["store_histories_with_overlapping_operations"] = r.Overlapping
+	c.Coverage["store_type_registration_checks"] = r.TypeChecks
+	a.add(r.Histories, r.Overlapping, "E6: 2-5 goroutines run Add/Update/Delete/List/DeleteByEntityID with unique payloads on 6 keys of the real component store (-race child); the recorded history is checked with porcupine key by key against a register-per-key model (List and DeleteByEntityID decomposed per key); concurrent registration of the same and of different type names is checked for idempotence and mutual resolution; a history is non-trivial when operations overlapped",
+		map[string]any{"engine": "E6 component store", "first_operations": r.Sample})
+}
